@@ -72,7 +72,7 @@ def explore(expand, cfg, init_digest, max_depth=None, max_states=None, procs=Non
                         res["states"] += 1
                         nh = h + (op,)
                         if len(res["samples"]) < 3 and len(nh) >= 3:
-                            res["samples"].append({"cfg": label, "history": [list(o) for o in nh]})
+                            res["samples"].append({"cfg": label, "history": [list(o) if isinstance(o, (list, tuple)) else o for o in nh]})
                         if max_states is not None and len(seen) >= max_states:
                             capped = True
                         nxt.append(nh)
